@@ -295,13 +295,17 @@ def leg_files(ctx, emit):
             if len(fs) != 1:
                 rc = 99
             else:
-                # file content + atlas.sum with the wall-clock version of the file NAME projected away
-                body = open(os.path.join(md, fs[0])).read() + "\n== atlas.sum\n" + re.sub(r"\d{14}", "NOW", open(os.path.join(md, "atlas.sum")).read())
+                # The generated file's NAME carries the wall-clock version, and both hashes of atlas.sum cover
+                # the name. The clock is an input, not part of the property: the file is renamed to a fixed
+                # name and re-hashed with `migrate hash`, then content and the whole sum file are compared.
+                body = open(os.path.join(md, fs[0])).read()
+                os.rename(os.path.join(md, fs[0]), os.path.join(md, "1_init.sql"))
+                rc, _, se = ctx.atlas_run(["migrate", "hash", "--dir", "file://" + md], d)
+                if rc == 0:
+                    body += "\n== atlas.sum\n" + open(os.path.join(md, "atlas.sum")).read()
         outs2[i] = (rc, body, se)
 
     ctx.par(list(range(P)), work2)
-    # the directory-level h1 of atlas.sum covers the file NAME (wall-clock version): only the file line is comparable
-    outs2 = [(rc, re.sub(r"(?m)\A(.*== atlas.sum\n)h1:[^\n]*\n", r"\1", b, flags=re.S), se) for rc, b, se in outs2]
     if compare_outputs(ctx, "files", "migrate-diff", outs2, {"leg": "files", "seed": ctx.seed}):
         ctx.sample({"leg": "files", "files": len(names), "processes": P, "migration_bytes": len(outs2[0][1]), "verdict": "held"})
 
